@@ -380,6 +380,17 @@ def _np_ref68(w):
     return np.ldexp(m.astype(np.float64), e.astype(np.int32))
 
 
+def _np_canon68(w):
+    """the normalised code-68 words (written from the format: mantissa in [1/2, 1) resp. [-1, -1/2), or the smallest
+    exponent, or the zero word 0x40000000)"""
+    s = (w >> 31) & 1
+    E = (w >> 23) & 0xFF
+    F = w & 0x7FFFFF
+    pos = (s == 0) & ((F >= (1 << 22)) | ((E == 0) & (F != 0)) | ((E == 128) & (F == 0)))
+    neg = (s == 1) & (((F >= 1) & (F <= (1 << 22))) | ((E == 255) & (F > (1 << 22))))
+    return pos | neg
+
+
 def _sweep68_chunk(job):
     try:
         return _sweep68_chunk_(job)
@@ -434,6 +445,14 @@ def _sweep68_chunk_(job):
         back = _np_ref68(w2).view(np.uint64)
         want = ref if idx is None else ref[idx]
         bad = np.nonzero(back != want)[0]
+        # canonical-word property: to68(from68(w)) == w exactly for the canonical (normalised) words
+        w_in = w if idx is None else w[idx]
+        fixed_bad = np.nonzero((w2 == w_in) != _np_canon68(w_in))[0]
+        for i in fixed_bad[:20]:
+            u = int(w_in[i])
+            fails.append(({'op': 'rt68', 'u': u, 'impl': name},
+                          f'{name}: to68(from68(0x{u:08X})) = 0x{int(w2[i]):08X}; the word is '
+                          f'{"canonical" if bool(_np_canon68(w_in[i:i+1])[0]) else "not canonical"}', None))
         for i in bad[:20]:
             u = int(w[i] if idx is None else w[idx[i]])
             fails.append(({'op': 'rt68', 'u': u, 'impl': name},
@@ -852,6 +871,10 @@ def replay(ctx, rec):
             w2 = M[n].to68(M[n].from68(u))
             if R.lis68(w2) != R.lis68(u):
                 msgs.append(f'{n}: to68(from68(0x{u:08X})) = 0x{w2:08X} decodes to a different value')
+            import numpy as np
+            canon = bool(_np_canon68(np.array([u], dtype=np.uint64))[0])
+            if (w2 == u) != canon:
+                msgs.append(f'{n}: to68(from68(0x{u:08X})) = 0x{w2:08X}; the word is {"canonical" if canon else "not canonical"}')
         return (not msgs), ('; '.join(msgs) or 'round trip gives an equivalent word')
     if op == 'fixedlen':
         return True, 'see run'
